@@ -125,6 +125,27 @@ def rule_rotation_table(ctx, res):
             if isinstance(b2, tuple) and b2[0] == 'not':
                 return ('k', {x for x in (0, 1, 'more') if x not in b2[1]})
             return ('k', {b2} if b2 in (0, 1) else {'other:%s' % b2})
+        # the same question asked with == / < instead of a match on the number
+        def subject(t):
+            t = strip_transparent(t)
+            return isinstance(t, tuple) and t[0] == 'call' and t[1] == 'token::intervals_passed' and is_field_of_param(t[2][0], 'self', 'last_refresh')
+        dom = (0, 1, 'more')
+        if rel == 'eq' and truth is not None:
+            for x, y in ((a, b2), (b2, a)):
+                cst = lib.term_int(y) if isinstance(y, tuple) else None
+                if subject(x) and cst is not None:
+                    hit = {cst} if cst in (0, 1) else {'more'} if truth is False else None
+                    if hit is None:
+                        raise Lost('refresh_check: equality with %s' % cst)
+                    return ('k', hit if truth else {v for v in dom if v not in hit})
+        if rel == 'lt' and truth is not None:
+            ca, cb = (lib.term_int(a) if isinstance(a, tuple) else None), (lib.term_int(b2) if isinstance(b2, tuple) else None)
+            if subject(a) and cb is not None and cb <= 2:          # k < c
+                less = {v for v in (0, 1) if v < cb}
+                return ('k', less if truth else {v for v in dom if v not in less})
+            if subject(b2) and ca is not None and ca <= 1:         # c < k
+                more = {v for v in (0, 1) if v > ca} | {'more'}
+                return ('k', more if truth else {v for v in dom if v not in more})
         raise Lost('refresh_check: unrecognised condition %s %s' % (rel, fmt(a)))
 
     def outcome(p):
@@ -202,11 +223,55 @@ def rule_validation(ctx, res):
             return ('%s_%s' % (fam, sec[2]), truth)
         raise Lost('validate_token_from_addr: unrecognised condition')
 
-    tab = lib.bool_table(s.complete_paths(), classify)
+    # accepted form B: `[secret_one, secret_two].iter().any(|s| generate_token_from_addr(addr, *s) == token)` - the same
+    # disjunction written over the generator that checkout uses (family dispatch then happens inside the generator)
+    cps = s.complete_paths()
+    form_b = False
+    if len(cps) == 1 and not cps[0].conds and cps[0].ret[0] == 'call' and cps[0].ret[1].split('::')[-1] == 'any':
+        anyc = cps[0].ret
+        src = strip_transparent(anyc[2][0])
+        while isinstance(src, tuple) and src[0] == 'call' and src[1].split('::')[-1] in ('iter', 'into_iter', 'copied'):
+            src = strip_transparent(src[2][0])
+        elems = []
+        while isinstance(src, tuple) and src[0] in ('cast', 'ref', 'deref'):
+            src = strip_transparent(src[1])
+        if isinstance(src, tuple) and src[0] == 'array':
+            elems = [strip_transparent(v) for v in src[1]]
+        okb = sorted(e[2] for e in elems if is_param(e)) == ['secret_one', 'secret_two'] and len(elems) == 2
+        cl = anyc[2][1]
+        if okb and isinstance(cl, tuple) and cl[0] == 'closure':
+            kb = ctx.body(cl[1])
+            res.touch(kb)
+            ks = Sym(kb)
+            ks.run()
+            kc = ks.complete_paths()
+            okb = False
+            if len(kc) == 1 and not kc[0].conds:
+                r = strip_transparent(kc[0].ret)
+                if r[0] == 'call' and lib.cmp_kind_of_call(r[1]) == 'eq':
+                    x, y = strip_transparent(r[2][0]), strip_transparent(r[2][1])
+                    for g, tk in ((x, y), (y, x)):
+                        if g[0] == 'call' and g[1] == 'token::generate_token_from_addr':
+                            ga, gs_ = strip_transparent(g[2][0]), strip_transparent(g[2][1])
+                            caps = [strip_transparent(c) for c in cl[2]]
+                            def cap_of(t):
+                                ch = field_chain(t)
+                                return caps[kb.upvars.index(ch[0])] if ch and ch[0] in kb.upvars and is_param(root_of(t)) and root_of(t)[1] == 1 else None
+                            okb = (is_param(strip_transparent(cap_of(ga)) if cap_of(ga) is not None else ('x',), 'addr') and is_param(strip_transparent(cap_of(tk)) if cap_of(tk) is not None else ('x',), 'token')
+                                   and is_param(root_of(gs_)) and root_of(gs_)[1] == 2)
+        else:
+            okb = False
+        res.check(okb, 'TABLE', b.path, 'valid <=> matches under the first secret or under the second secret, for the address family of the requester',
+                  detail='form B (any over both secrets against the generator)')
+        tab = None
+        form_b = okb
+    else:
+        tab = lib.bool_table(cps, classify)
     dom = {'fam': ['V4', 'V6'], 'V4_secret_one': BOOL, 'V4_secret_two': BOOL, 'V6_secret_one': BOOL, 'V6_secret_two': BOOL}
-    bad, n = tab.compare(dom, lambda v: v['%s_secret_one' % v['fam']] or v['%s_secret_two' % v['fam']])
-    res.check(not bad, 'TABLE', b.path, 'valid <=> matches under the first secret or under the second secret, for the address family of the requester',
-              detail='; '.join('%s -> got %s want %s' % x for x in bad[:3]))
+    if tab is not None:
+        bad, n = tab.compare(dom, lambda v: v['%s_secret_one' % v['fam']] or v['%s_secret_two' % v['fam']])
+        res.check(not bad, 'TABLE', b.path, 'valid <=> matches under the first secret or under the second secret, for the address family of the requester',
+                  detail='; '.join('%s -> got %s want %s' % x for x in bad[:3]))
     gb = ctx.body('token::generate_token_from_addr')
     res.touch(gb)
     gs = Sym(gb)
@@ -226,19 +291,23 @@ def rule_validation(ctx, res):
         fams.add((fam, r[1][-2:]))
     res.check(okg and fams == {(0, 'v4'), (1, 'v6')}, 'TABLE', gb.path, 'generation dispatches V4 -> v4 generator, V6 -> v6 generator with the given secret', detail=str(fams))
     for fam, octets, ln in (('v4', 'Ipv4Addr::octets', 8), ('v6', 'Ipv6Addr::octets', 20)):
-        vb = ctx.body('token::validate_token_from_addr_' + fam)
-        res.touch(vb)
-        vs = Sym(vb)
-        vs.run()
-        okv = False
-        for p in vs.complete_paths():
-            r = p.ret
-            if r[0] == 'call' and lib.cmp_kind_of_call(r[1]) == 'eq':
-                x, y = strip_transparent(r[2][0]), strip_transparent(r[2][1])
-                for g, t in ((x, y), (y, x)):
-                    if g[0] == 'call' and g[1] == 'token::generate_token_from_addr_' + fam and is_param(t, 'token') and is_param(strip_transparent(g[2][1]), 'secret'):
-                        okv = True
-        res.check(okv, 'TABLE', vb.path, 'a token matches iff it equals the token the %s generator yields for (address, secret): same generator as issuing (sibling agreement)' % fam)
+        if form_b and ctx.f.body('token::validate_token_from_addr_' + fam) is None:
+            vb = None      # form B compares against generate_token_from_addr itself: no per-family validator exists
+        else:
+            vb = ctx.body('token::validate_token_from_addr_' + fam)
+        if vb is not None:
+            res.touch(vb)
+            vs = Sym(vb)
+            vs.run()
+            okv = False
+            for p in vs.complete_paths():
+                r = p.ret
+                if r[0] == 'call' and lib.cmp_kind_of_call(r[1]) == 'eq':
+                    x, y = strip_transparent(r[2][0]), strip_transparent(r[2][1])
+                    for g, t in ((x, y), (y, x)):
+                        if g[0] == 'call' and g[1] == 'token::generate_token_from_addr_' + fam and is_param(t, 'token') and is_param(strip_transparent(g[2][1]), 'secret'):
+                            okv = True
+            res.check(okv, 'TABLE', vb.path, 'a token matches iff it equals the token the %s generator yields for (address, secret): same generator as issuing (sibling agreement)' % fam)
         g = ctx.body('token::generate_token_from_addr_' + fam)
         res.touch(g)
         gsym = Sym(g)
